@@ -4,7 +4,7 @@ from __future__ import annotations
 import fcntl, hashlib, json, os, random, re, subprocess, sys, time, traceback
 
 ROOT = os.path.dirname(os.path.dirname(os.path.dirname(os.path.abspath(__file__))))
-LEAN = os.path.join(ROOT, "lean")
+LEAN = os.environ.get("VERIF_LEAN_DIR") or os.path.join(ROOT, "lean")
 REPO = os.environ.get("MAPPY_REPO", "/repo")
 ALLOWED_AXIOMS = {"propext", "Classical.choice", "Quot.sound"}
 FORBIDDEN = re.compile(r"\bsorry\b|\badmit\b|^\s*axiom\s|native_decide|bv_decide|implemented_by|\bunsafe\s|maxHeartbeats\s+0|\bextern\b")
